@@ -495,6 +495,7 @@ func (r *authRun) do(a *authReq) string {
 		ctx = ociauth.ContextWithScope(ctx, scopeOfTok(a.want))
 	}
 	var closes, rac int32
+	var subBodies []*int32
 	method := "GET"
 	var body io.ReadCloser
 	if a.body != "n" {
@@ -521,9 +522,11 @@ func (r *authRun) do(a *authReq) string {
 		req.Body = body
 		req.ContentLength = int64(len("request body"))
 		if a.body == "g" {
-			var subCloses int32
 			req.GetBody = func() (io.ReadCloser, error) {
-				return &countBody{r: strings.NewReader("request body"), closes: &subCloses, readAfterClose: &rac}, nil
+				// every body handed out belongs to the transport from then on: each has to be closed
+				c := new(int32)
+				subBodies = append(subBodies, c)
+				return &countBody{r: strings.NewReader("request body"), closes: c, readAfterClose: &rac}, nil
 			}
 		}
 	}
@@ -556,6 +559,11 @@ func (r *authRun) do(a *authReq) string {
 		bodyObs = "unclosed"
 		if atomic.LoadInt32(&closes) > 0 {
 			bodyObs = "closed"
+		}
+		for _, c := range subBodies {
+			if atomic.LoadInt32(c) == 0 {
+				bodyObs = "unclosed" // a body obtained from GetBody was dropped without being closed
+			}
 		}
 	}
 	reqObs := "same"
